@@ -152,4 +152,293 @@ theorem delayOk_of_fail (drop : Bool) (f : Nat) (r : Resp) (w : Int)
     simp only [this, Bool.false_eq_true, if_false]
     simp at h; simp [← h, hb]
 
+
+def entries (segs : List ASeg) : List Bytes := segs.flatMap ASeg.rest
+
+@[simp] theorem entries_nil : entries [] = [] := rfl
+@[simp] theorem entries_cons (h : ASeg) (t : List ASeg) : entries (h :: t) = h.rest ++ entries t := by
+  simp [entries]
+theorem entries_append (a b : List ASeg) : entries (a ++ b) = entries a ++ entries b := by
+  simp [entries]
+
+theorem remaining_eq (st : St) : st.remaining = entries st.segs := rfl
+
+/-- entries of an old segment (and of everything before it) were enqueued before the last `age` -/
+def OldOk : Nat → List ASeg → Nat → Prop
+  | _, [], _ => True
+  | g, h :: t, p => (h.old = true → g + h.rest.length ≤ p) ∧ OldOk (g + h.rest.length) t p
+
+/-- shape of the segment list: never empty; only the head may be empty, and then it
+    is the only segment and still takes the next entry -/
+structure SegsOk (segs : List ASeg) (maxSeg : Nat) : Prop where
+  ne : segs ≠ []
+  tailNonempty : ∀ h t, segs = h :: t → ∀ x ∈ t, x.rest ≠ []
+  headEmpty : ∀ h t, segs = h :: t → h.rest = [] → t = [] ∧ h.size ≤ h.maxSize
+  maxSeg8 : 8 ≤ maxSeg
+
+/-- the simulation invariant between a model state and a checker state -/
+structure Inv (st : St) (s : SS) : Prop where
+  split : ∃ pre, s.enq = pre ++ entries st.segs ∧ s.goneOk pre.length = true ∧
+            pre.length ≤ max s.posted s.mayPurged ∧ OldOk pre.length st.segs s.purgeable
+  fails : s.fails = st.failed
+  drop : s.drop = st.drop
+  accLen : s.acc.length = s.enq.length
+  segs : SegsOk st.segs st.maxSeg
+
+theorem goneOk_iff (s : SS) (g : Nat) :
+    s.goneOk g = true ↔ ∀ i, i < g → (s.acc.getD i false = true ∨ i < s.mayPurged) := by
+  simp [SS.goneOk, List.all_eq_true]
+
+
+theorem OldOk_append (a b : List ASeg) (g p : Nat) :
+    OldOk g (a ++ b) p ↔ OldOk g a p ∧ OldOk (g + (entries a).length) b p := by
+  induction a generalizing g with
+  | nil => simp [OldOk]
+  | cons h t ih =>
+    simp only [List.cons_append, OldOk, ih, entries_cons, List.length_append]
+    constructor
+    · rintro ⟨h1, h2, h3⟩; exact ⟨⟨h1, h2⟩, by rw [← Nat.add_assoc]; exact h3⟩
+    · rintro ⟨⟨h1, h2⟩, h3⟩; exact ⟨h1, h2, by rw [Nat.add_assoc]; exact h3⟩
+
+theorem split_last {α} : ∀ (l : List α) (t : α), l.getLast? = some t → l = l.dropLast ++ [t]
+  | [], _, h => by simp at h
+  | [a], t, h => by simp at h; simp [h]
+  | a :: b :: l, t, h => by
+    have := split_last (b :: l) t (by simpa using h)
+    simp only [List.dropLast_cons_cons, List.cons_append]
+    rw [← this]
+
+theorem goneOk_mono {s s' : SS} {g : Nat} (h : s.goneOk g = true)
+    (hacc : ∀ i, s.acc.getD i false = true → s'.acc.getD i false = true)
+    (hp : s.mayPurged ≤ s'.mayPurged) : s'.goneOk g = true := by
+  rw [goneOk_iff] at h ⊢
+  intro i hi
+  rcases h i hi with h1 | h1
+  · exact Or.inl (hacc i h1)
+  · exact Or.inr (by omega)
+
+theorem getD_append_false (acc : List Bool) (i : Nat) (h : acc.getD i false = true) :
+    (acc ++ [false]).getD i false = true := by
+  by_cases hi : i < acc.length
+  · simp [List.getD, List.getElem?_append_left hi] at h ⊢; exact h
+  · simp [List.getD, List.getElem?_eq_none (by omega : acc.length ≤ i)] at h
+
+theorem inv_enq {st : St} {s : SS} (h : Inv st s) (b : Bytes) :
+    Inv (st.enq b) { s with enq := s.enq ++ [b], acc := s.acc ++ [false] } := by
+  obtain ⟨pre, henq, hgone, hle, hold⟩ := h.split
+  have hne := h.segs.ne
+  obtain ⟨t, ht⟩ : ∃ t, st.segs.getLast? = some t := by
+    cases hs : st.segs.getLast? with
+    | none => exact absurd (List.getLast?_eq_none_iff.mp hs) hne
+    | some t => exact ⟨t, rfl⟩
+  have hsplit := split_last _ _ ht
+  generalize hinit : st.segs.dropLast = ini at hsplit
+  have hold' := hold
+  rw [hsplit, OldOk_append] at hold'
+  -- the two shapes of the new segment list
+  have key : ∃ t', t'.rest ≠ [] ∧ t'.old = false ∧
+      ((st.enq b).segs = ini ++ [t'] ∧ t'.rest = t.rest ++ [b] ∨
+       (st.enq b).segs = ini ++ [t, t'] ∧ t'.rest = [b] ∧ t.size > t.maxSize) ∧
+      (st.enq b).maxSeg = st.maxSeg ∧ (st.enq b).failed = st.failed ∧ (st.enq b).drop = st.drop := by
+    unfold St.enq
+    rw [ht]
+    by_cases hfull : t.size > t.maxSize
+    · refine ⟨(freshSeg st.maxSeg).put b, by simp [ASeg.put], rfl, Or.inr ⟨?_, by simp [ASeg.put, freshSeg], hfull⟩, ?_⟩
+      · simp only [if_pos hfull]; rw [hsplit]; simp
+      · simp [if_pos hfull]
+    · refine ⟨t.put b, by simp [ASeg.put], rfl, Or.inl ⟨?_, rfl⟩, ?_⟩
+      · simp only [if_neg hfull, hinit]
+      · simp [if_neg hfull]
+  obtain ⟨t', hne', hold_t', hshape, hms, hf, hd⟩ := key
+  have hent : entries (st.enq b).segs = entries st.segs ++ [b] := by
+    rcases hshape with ⟨hs, hr⟩ | ⟨hs, hr, _⟩
+    · rw [hs, hsplit, entries_append, entries_append]; simp [hr]
+    · rw [hs, hsplit, entries_append, entries_append]; simp [hr]
+  refine ⟨⟨pre, ?_, ?_, hle, ?_⟩, by simp [h.fails, hf], by simp [h.drop, hd], by simp [h.accLen], ?_⟩
+  · simp [henq, hent]
+  · exact goneOk_mono hgone (fun i hi => getD_append_false _ i hi) (Nat.le_refl _)
+  · rcases hshape with ⟨hs, hr⟩ | ⟨hs, hr, _⟩
+    · rw [hs, OldOk_append]
+      exact ⟨hold'.1, by simp [OldOk, hold_t']⟩
+    · rw [hs, show ini ++ [t, t'] = (ini ++ [t]) ++ [t'] by simp, OldOk_append, ← hsplit]
+      exact ⟨hold, by simp [OldOk, hold_t']⟩
+  · have hso := h.segs
+    rw [hms]
+    rcases hshape with ⟨hs, hr⟩ | ⟨hs, hr, hfull⟩
+    · rw [hs]
+      refine ⟨by simp, ?_, ?_, hso.maxSeg8⟩
+      · intro h0 t0 heq x hx
+        cases ini with
+        | nil => simp at heq; rw [heq.2] at hx; cases hx
+        | cons i0 irest =>
+          simp at heq
+          rw [← heq.2] at hx
+          rcases List.mem_append.mp hx with hx | hx
+          · exact hso.tailNonempty i0 (irest ++ [t]) (by rw [hsplit]; simp) x (by simp [hx])
+          · simp at hx; rw [hx]; exact hne'
+      · intro h0 t0 heq h0e
+        cases ini with
+        | nil => simp at heq; rw [← heq.1] at h0e; exact absurd h0e hne'
+        | cons i0 irest =>
+          simp at heq
+          have := hso.headEmpty i0 (irest ++ [t]) (by rw [hsplit]; simp) (by rw [heq.1]; exact h0e)
+          simp at this
+    · rw [hs]
+      refine ⟨by simp, ?_, ?_, hso.maxSeg8⟩
+      · intro h0 t0 heq x hx
+        cases ini with
+        | nil =>
+          simp at heq; rw [← heq.2] at hx; simp at hx; rw [hx]; exact hne'
+        | cons i0 irest =>
+          simp at heq
+          rw [← heq.2] at hx
+          rcases List.mem_append.mp hx with hx | hx
+          · exact hso.tailNonempty i0 (irest ++ [t]) (by rw [hsplit]; simp) x (by simp [hx])
+          · simp at hx
+            rcases hx with hx | hx
+            · rw [hx]; exact hso.tailNonempty i0 (irest ++ [t]) (by rw [hsplit]; simp) t (by simp)
+            · rw [hx]; exact hne'
+      · intro h0 t0 heq h0e
+        cases ini with
+        | nil =>
+          simp at heq
+          have := hso.headEmpty t [] (by rw [hsplit]; rfl) (by rw [heq.1]; exact h0e)
+          omega
+        | cons i0 irest =>
+          simp at heq
+          have := hso.headEmpty i0 (irest ++ [t]) (by rw [hsplit]; simp) (by rw [heq.1]; exact h0e)
+          simp at this
+
+
+
+theorem entries_map_old (segs : List ASeg) :
+    entries (segs.map fun s => { s with old := true }) = entries segs := by
+  induction segs with
+  | nil => rfl
+  | cons h t ih => simp [ih]
+
+theorem OldOk_all (segs : List ASeg) (g : Nat) (p : Nat) (h : g + (entries segs).length ≤ p) :
+    OldOk g segs p := by
+  induction segs generalizing g with
+  | nil => trivial
+  | cons a t ih =>
+    simp only [entries_cons, List.length_append] at h
+    exact ⟨fun _ => by omega, ih _ (by omega)⟩
+
+theorem inv_age {st : St} {s : SS} (h : Inv st s) :
+    Inv st.age { s with purgeable := s.enq.length } := by
+  obtain ⟨pre, henq, hgone, hle, hold⟩ := h.split
+  have hso := h.segs
+  refine ⟨⟨pre, ?_, hgone, hle, ?_⟩, h.fails, h.drop, h.accLen, ?_⟩
+  · simp [St.age, entries_map_old, henq]
+  · apply OldOk_all
+    simp [St.age, entries_map_old, henq]
+  · simp only [St.age]
+    refine ⟨by simp [hso.ne], ?_, ?_, hso.maxSeg8⟩
+    · intro h0 t0 heq x hx
+      cases hs : st.segs with
+      | nil => exact absurd hs hso.ne
+      | cons a t =>
+        rw [hs] at heq; simp at heq
+        rw [← heq.2] at hx
+        obtain ⟨y, hy, rfl⟩ := List.mem_map.mp hx
+        exact hso.tailNonempty a t hs y hy
+    · intro h0 t0 heq h0e
+      cases hs : st.segs with
+      | nil => exact absurd hs hso.ne
+      | cons a t =>
+        rw [hs] at heq; simp at heq
+        have := hso.headEmpty a t hs (by rw [← heq.1] at h0e; exact h0e)
+        rw [← heq.2, ← heq.1]
+        simp [this.1, this.2]
+
+theorem inv_dump {st : St} {s : SS} (h : Inv st s) :
+    s ∈ wstep s .dump (.dumped st.remaining) := by
+  obtain ⟨pre, henq, hgone, hle, hold⟩ := h.split
+  have hlen : s.enq.length - st.remaining.length = pre.length := by
+    simp [henq, remaining_eq]
+  simp only [wstep]
+  rw [if_pos]
+  · simp
+  · refine ⟨by simp [henq, remaining_eq], ?_, by rw [hlen]; exact hgone⟩
+    rw [hlen, henq, remaining_eq]; simp
+
+
+theorem segsOk_fresh (ms : Nat) (h8 : 8 ≤ ms) : SegsOk [freshSeg ms] ms := by
+  refine ⟨by simp, ?_, ?_, h8⟩
+  · intro h0 t0 heq x hx; simp at heq; rw [heq.2] at hx; cases hx
+  · intro h0 t0 heq _; simp at heq; rw [← heq.1]; exact ⟨heq.2, by simp [freshSeg]; exact h8⟩
+
+theorem segsOk_tail {a b : ASeg} {t : List ASeg} {ms : Nat} (h : SegsOk (a :: b :: t) ms) :
+    SegsOk (b :: t) ms := by
+  refine ⟨by simp, ?_, ?_, h.maxSeg8⟩
+  · intro h0 t0 heq x hx
+    simp at heq; rw [← heq.2] at hx
+    exact h.tailNonempty a (b :: t) rfl x (by simp [hx])
+  · intro h0 t0 heq h0e
+    simp at heq
+    exact absurd (by rw [heq.1]; exact h0e) (h.tailNonempty a (b :: t) rfl b (by simp))
+
+theorem purgeSegs_spec (ms : Nat) :
+    ∀ (fuel : Nat) (segs : List ASeg) (g p : Nat), fuel > segs.length → SegsOk segs ms → OldOk g segs p →
+      ∃ d, d ≤ (entries segs).length ∧
+        entries (purgeSegs ms fuel segs) = (entries segs).drop d ∧
+        (g + d ≤ max g p) ∧ OldOk (g + d) (purgeSegs ms fuel segs) p ∧
+        SegsOk (purgeSegs ms fuel segs) ms := by
+  intro fuel
+  induction fuel with
+  | zero => intro segs g p hf; omega
+  | succ fuel ih =>
+    intro segs g p hf hso hold
+    cases segs with
+    | nil => exact absurd rfl hso.ne
+    | cons a t =>
+      simp only [purgeSegs]
+      by_cases hao : a.old = true
+      · rw [if_pos hao]
+        have ha := hold.1 hao
+        cases t with
+        | nil =>
+          refine ⟨a.rest.length, by simp, by simp [freshSeg], by omega, ?_, segsOk_fresh ms hso.maxSeg8⟩
+          simp [OldOk, freshSeg]
+        | cons b t' =>
+          simp only []
+          obtain ⟨d, hd, hent, hle, hold', hso'⟩ :=
+            ih (b :: t') (g + a.rest.length) p (by simp at hf ⊢; omega) (segsOk_tail hso) hold.2
+          refine ⟨a.rest.length + d, by simp at hd ⊢; omega, ?_, by omega, ?_, hso'⟩
+          · rw [hent]; simp [List.drop_append]
+          · rw [← Nat.add_assoc]; exact hold'
+      · rw [if_neg hao]
+        exact ⟨0, by simp, by simp, by omega, by simpa using hold, hso⟩
+
+theorem inv_purge {st : St} {s : SS} (h : Inv st s) :
+    Inv st.purge { s with mayPurged := max s.mayPurged s.purgeable } := by
+  obtain ⟨pre, henq, hgone, hle, hold⟩ := h.split
+  have hmono : ({ s with mayPurged := max s.mayPurged s.purgeable } : SS).goneOk pre.length = true :=
+    goneOk_mono hgone (fun i hi => hi) (by simp; omega)
+  unfold St.purge
+  by_cases hma : st.maxAge = 0
+  · rw [if_pos hma]
+    exact ⟨⟨pre, henq, hmono, by simp; omega, hold⟩, h.fails, h.drop, h.accLen, h.segs⟩
+  · rw [if_neg hma]
+    obtain ⟨d, hd, hent, hle', hold', hso'⟩ :=
+      purgeSegs_spec st.maxSeg (st.segs.length + 1) st.segs pre.length s.purgeable (by omega) h.segs hold
+    refine ⟨⟨pre ++ (entries st.segs).take d, ?_, ?_, ?_, ?_⟩, h.fails, h.drop, h.accLen, hso'⟩
+    · simp only [hent, henq, List.append_assoc, List.take_append_drop]
+    · rw [goneOk_iff]
+      intro i hi
+      by_cases hip : i < pre.length
+      · exact (goneOk_iff _ _).mp hmono i hip
+      · right
+        simp only [List.length_append, List.length_take] at hi
+        show i < max s.mayPurged s.purgeable
+        omega
+    · simp only [List.length_append, List.length_take]
+      show pre.length + min d (entries st.segs).length ≤ max s.posted (max s.mayPurged s.purgeable)
+      omega
+    · simp only [List.length_append, List.length_take]
+      rw [Nat.min_eq_left hd]
+      exact hold'
+
+
 end Influx.Repl
